@@ -667,6 +667,11 @@ func (ni *NodeInfo) getResourceGpuPortion(res *resource_info.ResourceRequirement
 
 func (ni *NodeInfo) isValidGpuPortion(res *resource_info.ResourceRequirements) bool {
 	gpuPortion := ni.getResourceGpuPortion(res)
+	if res.GpuMemory() > 0 {
+		// A gpu memory request is served by a single device (by each of its devices): it can never be more than the
+		// memory of one GPU of this node, not even a whole multiple of it.
+		return gpuPortion <= 1
+	}
 	return gpuPortion <= 1 || gpuPortion == float64(int(gpuPortion))
 }
 
